@@ -4,6 +4,7 @@ Oracle: vf.model.subst (whole-word fix-point substitution with cycle detection) 
 defined so far; the substituted text is evaluated by the reference expression evaluator; compared with the bytes the
 real CLI emitted.  Probe: `subst` (in/out pairs of Preprocessor.resolve_symbols).
 """
+import json
 import re
 
 from vf import core, isa as isamod, gen_prog
@@ -27,7 +28,7 @@ class C09(core.Check):
                    '("every whole-word occurrence"), probed only where the replaced text is made of word characters, operators and single blanks',
                    'an unused cyclic definition is DONT_CARE')
     chunk = 800
-    required_buckets = {b: 3 for b in [
+    required_buckets = {b: 3 for b in ['symbol-names-the-label-or-constant-a-line-defines',
         'adjacent:prefix', 'adjacent:suffix', 'adjacent:infix', 'chain:2', 'chain:3', 'chain:4', 'diamond', 'cycle:1',
         'cycle:2', 'cycle:3', 'cycle:4', 'use-before-define', 'double:isa+isa', 'double:isa+cli', 'double:isa+define',
         'double:cli+cli', 'double:cli+define', 'double:define+define', 'expands-to:register', 'expands-to:label',
@@ -366,6 +367,34 @@ class C09(core.Check):
                            in_string=(i % 6 == 1 or None) if i < n_pre else None)
             if c:
                 yield c
+        yield from self.defining_position_cases()
+
+    def defining_position_cases(self):
+        """a defined symbol is replaced wherever it stands as a whole word on a non-directive line - also where the word names the
+        label or constant the line defines: the name defined is then the replacement text"""
+        isa = gen_prog.layout_isa(16, endian='big')
+        for k, (src, image, cli, cfg) in enumerate([
+                (['#define ENTRY_Q start_here', 'ENTRY_Q: .byte 1', '.2byte start_here'], '010000', [], []),
+                (['#define ENTRY_Q start_here', '.byte 9', 'ENTRY_Q:', '.byte 1', '.2byte start_here, ENTRY_Q'], '090100010001', [], []),
+                (['#define KNAME_Q k_val', 'KNAME_Q = 7', '.byte k_val'], '07', [], []),
+                (['#define KNAME_Q k_val', 'KNAME_Q EQU 9', '.byte k_val, KNAME_Q'], '0909', [], []),
+                (['#define KNAME_Q k_val', '#define SEVEN_Q 7', 'KNAME_Q = SEVEN_Q + 1', '.byte k_val'], '08', [], []),
+                (['ENTRY_Q: .byte 1', '.2byte start_here'], '010000', [('ENTRY_Q', 'start_here')], []),
+                (['KNAME_Q = 7', '.byte k_val'], '07', [], [('KNAME_Q', 'k_val')]),
+                (['#define FILE_Q _priv', 'FILE_Q: .byte 1', '.2byte _priv + 2'], '010002', [], []),
+                (['host_q:', '#define LOC_Q .inner', '.byte 5', 'LOC_Q: .byte 1', '.2byte .inner'], '05010001', [], []),
+                # control: a name that merely contains the symbol's name stays as written
+                (['#define ENTRY_Q start_here', 'ENTRY_Q2: .byte 1', '.2byte ENTRY_Q2'], '010000', [], [])]):
+            isa_k = json.loads(json.dumps(isa))
+            if cfg:
+                isa_k.setdefault('predefined', {})['symbols'] = [{'name': n, 'value': t} for n, t in cfg]
+            fn, text = isamod.render_isa(isa_k, 'json')
+            argv = ['compile', '-c', fn, 'p.asm', '-o', 'out.bin']
+            for n, t in cli:
+                argv += ['-D', f'{n}={t}']
+            yield {'runs': [{'files': {fn: text, 'p.asm': '\n'.join(src) + '\n'}, 'argv': argv, 'probes': ['steps', 'subst'], 'step_limit': 400000}],
+                   'meta': {'kind': 'ACCEPT', 'why': None, 'probes': [{'addr': 0, 'bytes': image, 'text': src[-1], 'line': len(src)}]},
+                   'tags': ['expect:ACCEPT', 'symbol-names-the-label-or-constant-a-line-defines', 'source:' + ('cli' if cli else 'isa' if cfg else 'define')]}
 
     def judge(self, case, outcomes):
         o = outcomes[0]
